@@ -12,7 +12,8 @@ from vlib import env, parsermon
 parsermon.install()          # before saml2_tophat / defusedxml are imported
 
 import ast            # noqa: E402
-import base64         # noqa: E402
+import base64
+import gc         # noqa: E402
 import importlib      # noqa: E402
 import os             # noqa: E402
 import random         # noqa: E402
@@ -394,6 +395,39 @@ def run_case(case, ctx):
         if b != "soap":
             eps.append(("client.parse_authn_request_response", lambda d: sp.parse_authn_request_response(enc(d), binding, {"id-req-1": "/"}), respxml))
             eps.append(("server.parse_authn_request", lambda d: idp.parse_authn_request(enc(d), binding), reqxml))
+
+            def after_valid(d):
+                """a good message of exactly the same length handled (and its result dropped) right before: whatever the entity remembers about
+                texts it has seen must not stand in for reading this one"""
+                data = d.encode("utf-8") if isinstance(d, str) else d
+                v = respxml.encode("utf-8")
+                n = max(len(data), len(v))
+                # (white space after the document element changes neither what the good message is nor what is wrong with the other)
+                e_hostile = enc(data + b" " * (n - len(data)))
+                e_valid = enc(v + b" " * (n - len(v)))
+                del data, v
+                out = {"id-req-1": "/"}
+                res, err, good = None, None, 0
+                for _round in range(3):
+                    r0 = sp.parse_authn_request_response(e_valid, binding, out)
+                    good += r0 is not None
+                    del r0
+                    gc.collect()
+                    # (nothing is allocated between the two calls that is not the library's own doing)
+                    try:
+                        res = sp.parse_authn_request_response(e_hostile, binding, out)
+                    except Exception as e:
+                        err = e
+                        res = None
+                    if res is not None:
+                        break
+                    gc.collect()
+                o.counters["valid_same_length_predecessors"] = o.counters.get("valid_same_length_predecessors", 0) + good
+                o.counters["rounds_after_a_valid_message"] = o.counters.get("rounds_after_a_valid_message", 0) + _round + 1
+                if res is None and err is not None:
+                    raise err
+                return res
+            eps.append(("client.parse_authn_request_response[after a valid message of the same length]", after_valid, respxml))
             eps.append(("Entity.unravel+response_from_string", lambda d: __import__("saml2_tophat.samlp", fromlist=["x"]).response_from_string(
                 sp.unravel(enc(d), binding)), respxml))
         else:
